@@ -4,3 +4,6 @@ import DclabModel.AuditCmd
 import DclabModel.DriveUtil
 import DclabModel.Properties.C19
 import DclabModel.Properties.C17
+import DclabModel.Properties.C15
+import DclabModel.Properties.C03
+import DclabModel.Properties.C16
